@@ -107,7 +107,7 @@ def real_kernel(ctx):
     scale = sandbox.time_scale()
 
     def once():
-        rc, data, log = sandbox.run_driver('harness.sync_main', [ctx.tier], timeout=500 * scale,
+        rc, data, log = sandbox.run_driver_patient('synchronisation', 'harness.sync_main', [ctx.tier], timeout=500 * scale,
                                            env={'VERIF_TIME_SCALE': str(scale)})
         if rc != 0 or data is None:
             sandbox.driver_failed('synchronisation', rc, log)
